@@ -527,6 +527,9 @@ def gen_spec(rng, n, mode):
     else:
         off = [rng.choice([0.0, -50.0, 500.0, 990.0, 999.5, -999.5, 5000.0, -5000.0, 9990.0, 1e5, -1e5]) for _ in range(3)]
     spec = []
+    # record-type mix per file: mostly ATOM with a few HETATM, ATOM only, HETATM ONLY (a ligand-only PQR: the
+    # ligand leg of a binding-energy calculation), half and half
+    het_p = rng.choice([0.1, 0.1, 0.0, 1.0, 1.0, 0.5])
     rad0 = rng.random() < 0.1
     # charges / radii that fill their columns: wherever the layout keeps or reads them apart
     ws_all_apart = all(a[1] != b[0] for a, b in zip(LAYOUT["ws"], LAYOUT["ws"][1:]))
@@ -542,7 +545,7 @@ def gen_spec(rng, n, mode):
         if wide_qr and rng.random() < 0.5:
             q = round(rng.choice([100.0, CAP_Q[0], CAP_Q[1], -10.0, rng.uniform(100, 999)]), 4)
             r = round(rng.choice([10.0, CAP_R[1], r, rng.uniform(10, 99)]), 4)
-        spec.append((rng.random() < 0.1, xyz[0], xyz[1], xyz[2], q, r))
+        spec.append((rng.random() < het_p, xyz[0], xyz[1], xyz[2], q, r))
     return spec, ext, off
 
 
